@@ -19,12 +19,13 @@ from .layout_spec import DictNode, Leaf, ListNode
 
 # ------------------------------------------------------------------------------------------ proof side
 def verify_case(job):
-    idx, tier, seed = job
+    idx, tier, seed = job[:3]
+    group = job[3] if len(job) > 3 else "base"
     try:
         from pyvc import extract
         extract.ensure_repo_on_path()
         from . import family
-        case = family.loader_family(tier)[idx].build()
+        case = family.loader_family(tier, group)[idx].build()
         return _verify_case(case, tier, seed)
     except Exception:  # noqa: BLE001
         return {"label": f"case#{idx}", "error": ("crash", traceback.format_exc()[-1500:]), "obls": [], "failures": [],
@@ -48,6 +49,7 @@ def _verify_case(case, tier, seed):
         return out
     src = cap["loader_src"]
     out["src_sha"] = hashlib.sha256(src.encode()).hexdigest()[:16]
+    structure = structure_obligation(case, src, "loader_src") if getattr(case, "twin", None) is not None else None
     try:
         run = LoaderRun(src, cap["loader_ns"], [f.name for f in case.fields])
         from . import symdata
@@ -71,6 +73,14 @@ def _verify_case(case, tier, seed):
             o.props = props
             o.note = note
             obls.append(o)
+    if structure is not None:
+        o = Obl(f"{case.label}/structure-unchanged", "structure-unchanged", [], z3.BoolVal(structure[0]), "post", 0, run.st0)
+        o.props = ["C19"]
+        o.note = structure[1]
+        obls.append(o)
+        for o2 in obls:
+            if "C19" not in (o2.props or []):
+                o2.props = list(o2.props or []) + ["C19"]
     t1 = time.time()
     discharge(run.interp, obls, 6000 if tier == "quick" else 60000, ext_budget=(6000 if tier == "quick" else None))
     out["solver_time"] = time.time() - t1
@@ -90,6 +100,57 @@ def _verify_case(case, tier, seed):
         out["xcheck"] = {"scenarios": native["n"], "mismatches": native["mismatches"][:3]}
     out["time"] = time.time() - t0
     return out
+
+
+# ------------------------------------------------------------------------------------------ structure (C19)
+def ast_shape(source):
+    """the structure of generated source with every piece of data abstracted away: constants become their type, identifiers
+    are numbered in order of first appearance, comments and positions are gone (ast)"""
+    import ast
+    tree = ast.parse("def __maker__():\n" + "\n".join("    " + ln for ln in source.splitlines()))
+    names = {}
+
+    def nm(x):
+        return names.setdefault(x, f"n{len(names)}")
+
+    def go(n):
+        if isinstance(n, ast.keyword) and n.arg is None and isinstance(n.value, ast.Dict) and len(n.value.keys) == 1 \
+                and isinstance(n.value.keys[0], ast.Constant) and isinstance(n.value.keys[0].value, str):
+            # f(**{'name': v}) is f(name=v): the spelling needed for parameter names that are keywords
+            return ("keyword", ("arg", "ID"), ("value", go(n.value.values[0])))
+        if isinstance(n, ast.Constant):
+            return ("const", type(n.value).__name__)
+        if isinstance(n, ast.AST):
+            out = [type(n).__name__]
+            for f, v in ast.iter_fields(n):
+                if f in ("lineno", "col_offset", "end_lineno", "end_col_offset", "type_comment", "kind"):
+                    continue
+                if f in ("id", "arg", "name", "attr") and isinstance(v, str):
+                    # every identifier is the same token: WHICH variable is meant is settled by the contract proof; here only
+                    # the shape of the program counts (a hostile field id may legitimately coincide with another identifier)
+                    out.append((f, "ID"))
+                else:
+                    out.append((f, go(v)))
+            return tuple(out)
+        if isinstance(n, list):
+            return tuple(go(x) for x in n)
+        return n
+    return go(tree)
+
+
+def structure_obligation(case, src, which):
+    """(holds, note): the program generated for hostile names/keys has exactly the structure of its harmless twin"""
+    from .run import capture
+    try:
+        twin = case.twin.build() if case.twin.model is None else case.twin
+        twin.want_loader, twin.want_dumper = case.want_loader, case.want_dumper
+        tsrc = capture(twin)[which]
+        a, b = ast_shape(src), ast_shape(tsrc)
+    except Exception as e:  # noqa: BLE001
+        return False, f"structure comparison failed: {type(e).__name__}: {str(e)[:200]}"
+    if a == b:
+        return True, ""
+    return False, "the generated function differs in structure from the one generated for harmless names and keys"
 
 
 # ------------------------------------------------------------------------------------------ native side
@@ -267,7 +328,7 @@ def native_check(case, cap, limit=200, seed=0):
                     mm("accept-upper", f"returned {_short(obj)} although {definite}")
                 else:
                     for f in case.fields:
-                        got = getattr(obj, f.name, _MISSING)
+                        got = obj.get(f.name, _MISSING) if isinstance(obj, dict) else getattr(obj, f.name, _MISSING)
                         b = bindings[f.name]
                         if b[0] == "loaded":
                             want = ("L", f.name, _freeze(b[1]))
@@ -385,14 +446,19 @@ def _short(o):
 _CACHE = {}
 
 
-def run_family(tier, seed):
-    key = (tier, seed)
+def run_family(tier, seed, group="base"):
+    key = (tier, seed, group)
     if key in _CACHE:
         return _CACHE[key]
     from . import dump, family
-    n = len(family.loader_family(tier))
-    nd = len(dump.dumper_family(tier))
-    jobs = [("L", (i, tier, seed)) for i in range(n)] + [("D", (i, tier, seed)) for i in range(nd)]
+    if group.startswith("conv"):
+        from . import conv
+        cgroup = "hostile" if group == "conv-hostile" else "base"
+        jobs = [("C", (i, tier, seed, cgroup)) for i in range(len(conv.conv_family(tier, cgroup)))]
+    else:
+        n = len(family.loader_family(tier, group))
+        nd = len(dump.dumper_family(tier, group))
+        jobs = [("L", (i, tier, seed, group)) for i in range(n)] + [("D", (i, tier, seed, group)) for i in range(nd)]
     if os.environ.get("VERIF_SERIAL") == "1":
         res = [_dispatch(j) for j in jobs]
     else:
@@ -406,13 +472,16 @@ def _dispatch(job):
     kind, j = job
     if kind == "L":
         return verify_case(j)
+    if kind == "C":
+        from . import conv
+        return conv.verify_conv_case(j)
     from . import dump
     return dump.verify_dump_case(j)
 
 
-def extra_for_property(prop, tier, seed):
+def extra_for_property(prop, tier, seed, group="base"):
     """the runner's `extra_checks` record for one property"""
-    res = run_family(tier, seed)
+    res = run_family(tier, seed, group)
     n_obl = n_dis = 0
     by_backend = {}
     viol, undecided, crashes, samples, functions = [], [], [], [], []
@@ -439,7 +508,7 @@ def extra_for_property(prop, tier, seed):
                 by_backend[o["backend"]] = by_backend.get(o["backend"], 0) + 1
         solver_time += d["solver_time"]
         assumptions.update(d["assumptions"])
-        functions.append({"unit": f"generated loader {d['label']}", "src_sha": d["src_sha"], "paths": d["paths"],
+        functions.append({"unit": f"generated program {d['label']}", "src_sha": d["src_sha"], "paths": d["paths"],
                           "obligations": len(obls)})
         if obls and len(samples) < 3:
             samples.append({"obligation": obls[0]["name"], "status": obls[0]["status"], "backend": obls[0]["backend"]})
